@@ -27,6 +27,7 @@ import time
 import traceback
 
 VERIF = os.path.dirname(os.path.dirname(os.path.abspath(__file__)))
+MAX_VIOLATIONS = int(os.environ.get('VERIF_MAX_VIOLATIONS', '12'))
 
 
 # ------------------------------------------------------------------------------------------------
@@ -157,13 +158,14 @@ def run_check(mod, argv=None):
     budget = args.budget or getattr(mod, 'BUDGET', {}).get(tier, 600 if tier == 'quick' else 3000)
     per_case = getattr(mod, 'CASE_TIMEOUT', {}).get(tier, 120 if tier == 'quick' else 600)
     jobs = [(mod.__name__, ('twin', k), per_case) for k in twins] + [(mod.__name__, k, per_case) for k in keys]
-    results, not_reached = _dispatch(jobs, args.jobs, budget, t0, verbose=args.verbose)
+    known_sigs = {f['signature'] for f in load_known(mod.ID)[0]}
+    results, not_reached = _dispatch(jobs, args.jobs, budget, t0, verbose=args.verbose, known_sigs=known_sigs)
     twin_res = [r for r in results if isinstance(r['key'], tuple) and r['key'] and r['key'][0] == 'twin']
     results = [r for r in results if r not in twin_res]
     return finish(mod, tier, seed, results, twin_res, not_reached, t0)
 
 
-def _dispatch(jobs, nproc, budget, t0, verbose=False):
+def _dispatch(jobs, nproc, budget, t0, verbose=False, known_sigs=()):
     import multiprocessing as mp
     results = []
     if not jobs:
@@ -183,6 +185,10 @@ def _dispatch(jobs, nproc, budget, t0, verbose=False):
     exhausted = False
     try:
         while True:
+            nviol = sum(1 for r in results if r['status'] == 'violation' and r.get('signature') not in known_sigs
+                        and not (isinstance(r['key'], tuple) and r['key'][:1] == ('twin',)))
+            if nviol >= MAX_VIOLATIONS:
+                exhausted = True  # enough counterexamples: stop exploring, report them
             while not exhausted and len(inflight) < 3 * nproc and time.time() - t0 < budget:
                 try:
                     j = next(it)
